@@ -135,7 +135,9 @@ fn check_calls(st: &mut Stats, line: &Value, stride: u32) -> Vec<String> {
     let mut d = vec![];
     let f: Vec<Vec<f32>> = arr(&line["f"]).iter().map(|row| arr(row).iter().map(|x| x.as_i64().unwrap() as f32).collect()).collect();
     let n = f.len() as u32;
-    let id = |m: u32| m * stride;
+    // stride 0: ids that differ from each other only in single high bits (5, 5 + 2^20, 5 + 2^21, ...):
+    // any packing of the id pair into too few bits makes distinct pairs collide
+    let id = |m: u32| if stride == 0 { if m == 1 { 5 } else { 5 + (1u32 << (18 + m)) } } else { m * stride };
     let ids: Vec<u32> = (1..=n).map(id).collect();
     let ont = flat_ontology(&ids);
     let mut table = HashMap::new();
@@ -189,6 +191,7 @@ pub fn replay_line(st: &mut Stats, prop: &str, idx: usize, line: &Value) {
         }
         diffs.extend(check_calls(st, line, 1));
         diffs.extend(check_calls(st, line, 3_333_333));
+        diffs.extend(check_calls(st, line, 0));
     }
     if st.samples.len() < 2 && idx % 101 == 3 {
         st.samples.push(line.clone());
